@@ -27,7 +27,7 @@ func b2z(b bool) *big.Int {
 func runC19(seed uint64, n int, out, stats string, _ []string) {
 	c := NewCases(out)
 	var mon []MonitorFailure
-	payouts, accruals, x3pays, dropped, setChanges := 0, 0, 0, 0, 0
+	payouts, accruals, x3pays, dropped, setChanges, switchedOff := 0, 0, 0, 0, 0, 0
 	for i := 0; i < n; i++ {
 		s := seed*1000003 + uint64(i)
 		r := NewRng(s)
@@ -119,10 +119,16 @@ func runC19(seed uint64, n int, out, stats string, _ []string) {
 			}
 			var txs [][]byte
 			fees := big.NewInt(0)
+			offIdx := -1
 			if spec.ExtraCands > 0 && b == earlyEv-1-r.Intn(2) {
 				for ci := nv; ci < nv+spec.ExtraCands; ci++ {
 					txs = append(txs, nd.MkTx(nd.Accts[ci%len(nd.Accts)], transaction.TypeSetCandidateOnline, transaction.SetCandidateOnData{PubKey: nd.Vals[ci].Pub}, 0, 0, 1, nil))
 				}
+			} else if r.Intn(12) == 0 && len(prev.Validators) > 2 {
+				// a current validator is switched off by its owner: it is marked to-drop in this block
+				// (its accrued reward returns to the pool, it accrues nothing, the set is refreshed)
+				offIdx = r.Intn(nv)
+				txs = append(txs, nd.MkTx(nd.Accts[offIdx%len(nd.Accts)], transaction.TypeSetCandidateOffline, transaction.SetCandidateOffData{PubKey: nd.Vals[offIdx].Pub}, 0, 0, 1, nil))
 			} else if r.Intn(3) == 0 {
 				a := nd.Accts[r.Intn(len(nd.Accts))]
 				txs = append(txs, nd.MkTx(a, transaction.TypeSend, transaction.SendData{Coin: 0, To: nd.Accts[0].Addr, Value: Z(1)}, 0, 0, uint32(1+r.Intn(3)), nil))
@@ -140,6 +146,9 @@ func runC19(seed uint64, n int, out, stats string, _ []string) {
 				} else if v, ok := tr.Tags["tx.fail_fee"]; ok {
 					fees.Add(fees, bi(v))
 				}
+			}
+			if offIdx >= 0 && (len(br.Txs) != 1 || br.Txs[0].Code != 0) {
+				offIdx = -1
 			}
 			cur := nd.Export()
 			h := uint64(nd.Height)
@@ -177,6 +186,11 @@ func runC19(seed uint64, n int, out, stats string, _ []string) {
 					stake = big.NewInt(0)
 					dropped++
 				}
+				if idx == offIdx && idx >= 0 {
+					drop = true
+					dropped++
+					switchedOff++
+				}
 				drops[v.PubKey] = drop
 				rows = append(rows, vrow{stake, bi(v.AccumReward), present, drop})
 				in = append(in, stake, bi(v.AccumReward), b2z(present), b2z(drop))
@@ -194,7 +208,7 @@ func runC19(seed uint64, n int, out, stats string, _ []string) {
 			jailed := false // absence beyond the limit also drops a validator; detect through candidate status
 			for _, cd := range cur.Candidates {
 				for _, pc := range prev.Candidates {
-					if pc.PubKey == cd.PubKey && pc.Status == 2 && cd.Status != 2 && len(opts.Evidence) == 0 {
+					if pc.PubKey == cd.PubKey && pc.Status == 2 && cd.Status != 2 && len(opts.Evidence) == 0 && !(offIdx >= 0 && cd.PubKey == nd.Vals[offIdx].Pub) {
 						jailed = true
 					}
 				}
@@ -264,6 +278,20 @@ func runC19(seed uint64, n int, out, stats string, _ []string) {
 						mon = append(mon, MonitorFailure{What: fmt.Sprintf("C19: validator set refreshed in block %d: validator %s (in previous set: %v) holds accumulated reward %s, earned %s", h, v.PubKey.String(), found, v.AccumReward, want), Key: "c19-set-change-accum", Replay: where})
 					}
 				}
+				if len(opts.Evidence) == 0 && !jailed {
+					// what the floor shares leave over goes to total-slashed, and nothing else does: a validator dropped
+					// in this block must not have taken a share on top of the pool
+					rem := new(big.Int).Set(rwt)
+					for _, rw := range rows {
+						if rw.present && !rw.drop {
+							sh := new(big.Int).Mul(rwt, rw.stake)
+							rem.Sub(rem, sh.Div(sh, totalPower))
+						}
+					}
+					if got := new(big.Int).Sub(bi(cur.TotalSlashed), bi(prev.TotalSlashed)); got.Cmp(rem) != 0 {
+						mon = append(mon, MonitorFailure{What: fmt.Sprintf("C19: block %d (a validator was dropped): total-slashed changed by %s, the remainder of reward+fees+returned rewards %s after the shares of the present validators is %s", h, got, rwt, rem), Key: "c19-dropped-remainder", Replay: where})
+					}
+				}
 			}
 			if isPayout && len(opts.Evidence) == 0 && !jailed {
 				// accumulated rewards right before the payout = model accrual of this block
@@ -283,12 +311,20 @@ func runC19(seed uint64, n int, out, stats string, _ []string) {
 				rwt := new(big.Int).Add(calcReward, fees)
 				totalPower := big.NewInt(0)
 				for _, rw := range rows {
+					if rw.drop {
+						rwt.Add(rwt, rw.accum)
+					}
 					if rw.present && !rw.drop {
 						totalPower.Add(totalPower, rw.stake)
 					}
 				}
 				if totalPower.Sign() == 0 {
 					totalPower = big.NewInt(1)
+				}
+				for k := range rows {
+					if rows[k].drop {
+						rows[k].accum = big.NewInt(0)
+					}
 				}
 				accumNow := make([]*big.Int, len(rows))
 				totalAccum, totalStakes := big.NewInt(0), big.NewInt(0)
@@ -379,5 +415,5 @@ func runC19(seed uint64, n int, out, stats string, _ []string) {
 	writeStats(stats, &Stats{Property: "C19", Seed: seed, Cases: c.NCases, Ops: c.NOps, NonTrivial: c.NonTriv,
 		Rule: "history of 13-52 blocks on the real node (2-5 validators with 0-3 extra delegators each, stakes 1000 BIP+1 pip .. 10^26, commissions 0-100, locked (x3) accounts, absences, evidence, fee-paying txs, zero block reward in a quarter of the histories); every non-payout block's accrual and every payout block's reward events are compared with Model/Rewards.v; non-trivial = at least one payout compared; distinct = distinct case text",
 		Dist: c.Dist, Samples: c.Samples, Monitor: mon,
-		Extra: map[string]interface{}{"accrual_blocks": accruals, "validator_payouts": payouts, "payouts_with_locked_stakes": x3pays, "dropped_validators": dropped, "validators_checked_after_mid_period_set_change": setChanges}})
+		Extra: map[string]interface{}{"accrual_blocks": accruals, "validator_payouts": payouts, "payouts_with_locked_stakes": x3pays, "dropped_validators": dropped, "validators_switched_off_by_their_owner": switchedOff, "validators_checked_after_mid_period_set_change": setChanges}})
 }
